@@ -21,6 +21,8 @@ def suite(name, tier, seed=0):
             return _chain(gen.mixed_programs(2), gen.mixed_programs(3, limit=2500, rnd=rnd), gen.mixed_programs(5, limit=600, rnd=rnd))
         return _chain(gen.mixed_programs(2, alphabet=[a for a in gen.ALPHABET if a[0] not in ('str', 'ret', 'lwc', 'b3')]),
                       gen.mixed_programs(4, limit=120, rnd=rnd))
+    if name == 'rand':
+        return gen.random_programs(6000 if thorough else 300, rnd)
     if name == 'align':
         return gen.align_programs()
     if name == 'li':
